@@ -6,6 +6,7 @@ import (
 	"bufio"
 	"flag"
 	"fmt"
+	"strings"
 	"math/rand"
 	"os"
 	"runtime"
@@ -15,8 +16,9 @@ import (
 
 // vOut writes the request stream (for the Lean model) and the implementation's reply stream.
 type vOut struct {
-	req, impl *bufio.Writer
-	n         int
+	req, impl, meta *bufio.Writer
+	n               int
+	label           string
 }
 
 func openOut(dir string) (*vOut, func()) {
@@ -30,8 +32,13 @@ func openOut(dir string) (*vOut, func()) {
 		fmt.Fprintln(os.Stderr, err)
 		os.Exit(2)
 	}
-	o := &vOut{req: bufio.NewWriter(fr), impl: bufio.NewWriter(fi)}
-	return o, func() { o.req.Flush(); o.impl.Flush(); fr.Close(); fi.Close() }
+	fm, err := os.Create(dir + "/meta.txt")
+	if err != nil {
+		fmt.Fprintln(os.Stderr, err)
+		os.Exit(2)
+	}
+	o := &vOut{req: bufio.NewWriter(fr), impl: bufio.NewWriter(fi), meta: bufio.NewWriter(fm)}
+	return o, func() { o.req.Flush(); o.impl.Flush(); o.meta.Flush(); fr.Close(); fi.Close(); fm.Close() }
 }
 
 // guarded runs f with panic recovery and a watchdog (time and heap): a hang or a blow-up of the
@@ -70,6 +77,7 @@ func guarded(f func() (string, string), fallbackReq func() string) (req, reply s
 func (o *vOut) emit(req, reply string) {
 	fmt.Fprintln(o.req, req)
 	fmt.Fprintln(o.impl, reply)
+	fmt.Fprintln(o.meta, o.label)
 	o.n++
 }
 
@@ -107,6 +115,32 @@ func VerifMain(args []string) int {
 				mt = 4 * *maxT
 			}
 			run(genRandomCase(r, mt))
+		}
+	case "perm":
+		// accepted programs with permuted and regrouped variants (C10); a variant is only derived
+		// from a base the implementation accepts
+		g := 0
+		for i := 0; i < *n && !fatal; i++ {
+			c := genRandomCase(r, *maxT)
+			c.plan = true
+			_, reply := runPlannerCase(c)
+			if !strings.HasPrefix(reply, "ok") {
+				continue
+			}
+			g++
+			out.label = fmt.Sprintf("g%d base", g)
+			run(c)
+			for k := 0; k < 3; k++ {
+				out.label = fmt.Sprintf("g%d perm", g)
+				run(permVariant(r, c))
+			}
+			out.label = fmt.Sprintf("g%d flat", g)
+			run(flatVariant(c))
+			if v := splitVariant(r, c); v != nil {
+				out.label = fmt.Sprintf("g%d split", g)
+				run(v)
+			}
+			out.label = ""
 		}
 	case "graphs":
 		// every digraph (self-loops included) on 1..nodes nodes, all three node-kind assignments
